@@ -4,9 +4,10 @@ import vlib
 
 TARGETS = ["Base/Corr.vo", "C12/Spec.vo", "C12/ModelS.vo", "C12/ModelM.vo", "C12/ModelH.vo", "C12/ProofsS.vo", "C12/ProofsClone.vo",
            "C12/ProofsSW.vo", "C12/ProofsSWExample.vo", "C12/ProofsM.vo", "C12/ProofsV.vo", "C12/ProofsH.vo", "C12/Corr.vo", "C12/CorrZ.vo",
-           "C12/CorrH.vo", "C12/Props.vo"]
+           "C12/CorrH.vo", "C12/ModelId.vo", "C12/CorrI.vo", "C12/ProofsId.vo",
+           "C12/ModelJ.vo", "C12/ProofsJ.vo", "C12/ProofsRefuted3.vo", "C12/CorrJ.vo", "C12/Props.vo"]
 PROPS = ["C12/Props.v"]
-STREAMS = [("scases", "S"), ("mcases", "M"), ("vcases", "V"), ("ecases", "E"), ("hcases", "H")]
+STREAMS = [("scases", "S"), ("jcases", "J"), ("mcases", "M"), ("vcases", "V"), ("ecases", "E"), ("hcases", "H")]
 PARTIAL = (
     "Proved in Coq, for ALL carriers / register files / heaps / histories, about the models coq/C12/ModelS.v (scalars and dense "
     "vectors of magic scalars as object ids over C01's register file), coq/C12/ModelM.v (dense matrix handles over C10's storage "
@@ -30,6 +31,22 @@ PARTIAL = (
     "(retained_reference_breaks_history_refuted = the seeded regression `inSitu.H = a`); the concrete clone-or-Set wrapper over "
     "C10's heap with the buffer threaded through any number of calls writes only the caller's own buffer "
     "(entry_history_writes_only_the_callers_buffer; the retain variant is refuted on a 2-call history). "
+    "(6, round 3) SLICE IDENTITIES: coq/C12/ModelId.v puts the identities of the backing arrays (Derivative, Hessian row headers, "
+    "every Hessian row) on top of C01's register file (Alloc keeps them when N and Order are unchanged and takes fresh ones otherwise); "
+    "for EVERY instruction of C01's table and EVERY history of the scalar/vector world the invariant 'no slice occurs twice, slice "
+    "footprints of different registers are disjoint' is kept (every_instruction_keeps_slices_apart, no_history_shares_a_slice), and for "
+    "every copying instruction (Set/SET, Min/Max/MIN/MAX, Abs/ABS, LogAdd/LogSub short cuts) the receiver's footprint is disjoint from "
+    "every operand's (copying_instruction_receiver_footprint_disjoint); the SET-with-copy() regression is refuted as a model. The model "
+    "is tied to the real addresses (reflection, arrays pinned) up to one bijection threaded through each stream-S history, next to a "
+    "model-free structural check (no two live scalars share a backing array). (7, round 3) JETS: coq/C12/ModelJ.v models nullScalar() "
+    "of the Real types as coded (order guards, full square scan); it equals 'every slot of the jet is zero' for every carrier with "
+    "0.0 == 0.0 (nullScalar_is_null_on_jets); a complete iterator loop over a sparse vector of jets keeps every slot of every position "
+    "and drops only all-zero jets (sparse_jet_iteration_keeps_observation / _drops_only_null_jets); the triangle-without-diagonal "
+    "variant is refuted. Stream J ties null_coded to the real nullScalar (which stored entries survive an iteration) and checks 29 "
+    "entry points of the sparse/dense Real64/Real32 containers (typed and generic) on operands of order 2: full slot observation of "
+    "read-only operands, copy = source, slice identity, >= 20 mutations. NOT in ModelId: the temporaries of composite instructions "
+    "other than Vmean/VdotV/Mtrace (LogAdd/LogSub are generated only on their operand-copying short cuts), MDOTM's tmp vectors and the "
+    "sparse containers (covered by stream J's structural check at run time, not by a model). "
     "NOT proved / partial: the entry-point theorems are about the generic wrapper with an abstract body (body_frames / body_ok); that each "
     "concrete algorithm of /repo/algorithm is such a body is NOT proved — for all 29 Run* entry points x 1155 option combinations "
     "and the 42 distribution constructors the harness's before/after snapshot comparison (evaluated in Coq, bit-exact) is the "
@@ -140,6 +157,8 @@ def run(ctx):
         "models imported from other properties: C01/Model.v (+ C01/Corr.v float instance), C10/Gen.v+Model.v (+ ProofsViews), C11/Model.v (+ proofs)",
         "hook /repo/verif_c12.go (address of a dense matrix's backing array), hooks verif_c10.go / verif_c11*.go (read-only dumps)",
         "entry-point stream: the role table of harness/c12/entry (which objects are inputs, InSitu buffers, documented output arguments)",
+        "streams S/J: reflect.Value.Pointer() of the exported slices Derivative / Hessian / Hessian[i] as the identity of a backing array "
+        "(zero-capacity slices have none); stream J reads the unexported value map of the sparse Real containers by reflection",
         "stream H: harness/c12/entry/footprint.go (reflection walk: every pointer target, backing array up to capacity and map header "
         "reachable from an object, library types only) as the definition of storage identity; SHA-256 digests of snapshots"]
     ctx.cov["partial"] = PARTIAL
@@ -154,7 +173,7 @@ def run(ctx):
         return
     n = 160 if ctx.tier == "quick" else 1600
     bad = corr(ctx, binary, n)
-    handed = [c for tag in ("H", "S", "M", "V", "E") for c in bad.get(tag, [])]
+    handed = [c for tag in ("J", "H", "S", "M", "V", "E") for c in bad.get(tag, [])]
     finds = hunt(ctx, binary, handed)
     unknown = []
     for f in finds:
@@ -168,7 +187,7 @@ def run(ctx):
     # E cases flagged by Coq that are not covered by a known finding
     e_unknown = [c for c in bad.get("E", []) if not is_known({"stream": "E", "case": c, "failure": ""})]
     h_unknown = [c for c in bad.get("H", []) if not is_known({"stream": "H", "case": c, "failure": ""})]
-    model_bad = [c for tag in ("S", "M", "V") for c in bad.get(tag, [])]
+    model_bad = [c for tag in ("S", "J", "M", "V") for c in bad.get(tag, [])]
     for f in unknown[:5]:
         ctx.violation({"case": f["case"], "failure": f["failure"], "site": f["site"], "at": f.get("at"),
                        "broken": [x["target"] for x in failures] + (["correspondence C12"] if model_bad else [])}, True,
